@@ -123,7 +123,7 @@ TEXT = {
                 'behaviour.',
         'design_ref': 'DESIGN.md section 5 (C04), section 8',
         'note': COMMON_NOTE + ' Termination is judged by a time budget (20 s per call on inputs of at most a few dozen elements).',
-        'technique': 'TLA+ spec defines states + input domain; native enumeration with watchdog and atomicity check',
+        'technique': 'TLA+ model of the verifier loop checked by TLC for termination (liveness) and a step bound; TLA+ spec defines states + input domain; native enumeration against the real entry points with watchdog and atomicity check',
     },
     'C05': {
         'text': 'Bounded exhaustive model checking over blocks x encodings: the abstract effect of a block in spec/Core.tla '
